@@ -174,7 +174,7 @@ def generated(seed, idx):
 class C10:
     ID = "C10"
     LEVEL = "exploration"
-    TIMEOUT = 40.0
+    TIMEOUT = 90.0
     RULE = ("case = either one script of the repository's test corpus or of 7 boundary-value scripts of our own (all of them, every run; printed text and outcome compared, addresses "
             "normalised) or one generated scenario of the C08/C09/C12/C14/C15/C16/C01 generators (program(s) + decision tape + fault plan "
             "+ simulated file system) or of a generator that calls every built-in method and operator with awkward arguments (NAT); every case is executed in each build configuration of the tier and its typed event history, "
